@@ -37,7 +37,13 @@ inline uint64_t splitmix64(uint64_t& x) {
 }
 
 inline uint64_t mix(uint64_t a, uint64_t b) {
-  uint64_t x = a ^ (b + 0x9e3779b97f4a7c15ULL + (a << 6) + (a >> 2));
+  // chained splitmix64: injective in b for fixed a and well mixed in a (no collisions between small
+  // neighbouring arguments, so consecutive seeds give unrelated streams)
+  uint64_t x = a;
+  uint64_t h = splitmix64(x);
+  x = h ^ b;
+  h = splitmix64(x);
+  x = h + 0x632be59bd9b4e019ULL * (b | 1);
   return splitmix64(x);
 }
 
@@ -372,6 +378,8 @@ struct Reporter {
   size_t max_samples = 6;
   int max_per_key = 3;
   bool breadcrumbs = true;
+  FILE* crumb_file = nullptr;
+  size_t crumb_len = 0;
 
   explicit Reporter(const std::string& out_dir) : out(out_dir) {
     vf.open(out + "/violations.jsonl", std::ios::out | std::ios::trunc);
@@ -397,12 +405,15 @@ struct Reporter {
   // Write the breadcrumb: first line is the canonical call-site key (used if the process dies).
   void crumb(const std::string& key, const std::string& detail = "") {
     if (!breadcrumbs) return;
-    FILE* f = std::fopen((out + "/breadcrumb.txt").c_str(), "w");
-    if (f) {
-      std::fputs(key.c_str(), f);
-      std::fputc('\n', f);
-      std::fputs(detail.c_str(), f);
-      std::fclose(f);
+    if (!crumb_file) crumb_file = std::fopen((out + "/breadcrumb.txt").c_str(), "w");
+    if (crumb_file) {
+      // one write at offset 0, padded so that a shorter crumb overwrites a longer one
+      std::string line = key + "\n" + detail + "\n";
+      if (line.size() < crumb_len) line.append(crumb_len - line.size(), ' ');
+      crumb_len = line.size();
+      std::rewind(crumb_file);
+      std::fwrite(line.data(), 1, line.size(), crumb_file);
+      std::fflush(crumb_file);
     }
   }
   void violation(const std::string& key, const std::string& detail_json) {
@@ -456,6 +467,7 @@ struct Reporter {
     for (size_t i = 0; i < samples.size(); ++i) f << (i ? "," : "") << samples[i];
     f << "]}\n";
     f.close();
+    if (crumb_file) std::fclose(crumb_file);
     std::remove((out + "/breadcrumb.txt").c_str());
     return violations ? 1 : 0;
   }
